@@ -173,10 +173,17 @@ def resolve_strategy_inline_attachments(base_path, attachments, decisions):
 
     for key in conflict_keys:
         # key is the attachment filename
-        ld = ldiffs_by_key[key]
-        rd = rdiffs_by_key[key]
+        ld = ldiffs_by_key.get(key)
+        rd = rdiffs_by_key.get(key)
 
-        if ld.op == DiffOp.REMOVE:
+        if ld is None or rd is None:
+            # Only one side changed this attachment (the conflict is that
+            # the other side deleted the cell): keep the change, flagged
+            if rd is None:
+                decisions.local(base_path, ld, [], conflict=True, strategy=strategy)
+            else:
+                decisions.remote(base_path, [], rd, conflict=True, strategy=strategy)
+        elif ld.op == DiffOp.REMOVE:
             # If one side is removing and we have a conflict,
             # the other side did an edit and we keep that
             # but flag a conflict (TODO: Or don't flag conflict?)
